@@ -95,6 +95,7 @@ func init() {
 	RegisterKind("snap-denied", "C01")
 	RegisterKind("lock-held", "C18", "C16")
 	RegisterKind("snap-cross-effect", "C04")
+	RegisterKind("goroutines-left-blocked", "C09", "C13", "C15", "C18")
 	RegisterKind("linearizability", "C04", "C18")
 	RegisterKind("count-mismatch", "C04", "C06", "C15")
 	// request outcomes
